@@ -21,11 +21,12 @@ func init() {
 	core.Register(&core.Monitor{
 		ID: "C19",
 		Rule: "documents rendered from random syntax trees (all three selection kinds, every nesting order, hostile strings, directives, fragment variables) are parsed, " +
-			"json.Marshal'ed, json.Unmarshal'ed and compared with the parsed original through an AST→model adapter, once into a fresh value and once into a value that already holds another (fixed, feature-rich) document; documents carry comments with hostile contents (DEL, private-use and emoji characters, U+2028) on their nodes, and one in 97 is a chain 60-200 selections deep; a case is non-trivial when it contains a fragment spread or an inline fragment; " +
+			"json.Marshal'ed, json.Unmarshal'ed and compared with the parsed original through an AST→model adapter and then node by node through everything encoding/json carries (exported fields, as deep as the tree and - for validated documents - the linked schema definitions go; positions and comment groups excepted), once into a fresh value and once into a value that already holds another (fixed, feature-rich) document; documents carry comments with hostile contents (DEL, private-use and emoji characters, U+2028) on their nodes, and one in 97 is a chain 60-200 selections deep; a case is non-trivial when it contains a fragment spread or an inline fragment; " +
 			"distinct = distinct (kind-at-depth) shape signatures of the selection trees",
 		Assumptions: []string{
 			"model equality ignores positions, comments and validation annotations (the property lists operations, fragments, selections, names, arguments, values, directives, type conditions)",
-			"most documents are parsed but not validated; one in eight is a schema-valid document encoded AFTER validation (the annotations validation leaves on the tree are part of what json.Marshal sees)",
+			"most documents are parsed but not validated; one in eight is a schema-valid document encoded AFTER validation (the annotations validation leaves on the tree are part of what json.Marshal sees), half of those also once BEFORE it",
+			"comment groups are not compared: the decoders of operations, fragments and fields do not read them, and the property does not list comments among what survives",
 		},
 		Shards:          func(tier string) int { return 16 },
 		Run:             c19Run,
